@@ -1,10 +1,10 @@
 ---- MODULE DutiesCacheGen ----
 (* Schedule generation: behaviours of the design spec, recorded in `hist` (only the ENVIRONMENT's moves: Call, the
-   beacon node computing / delivering an answer, Reorg, Invalidate, Trim, Mutate; the cache's own steps are the
+   beacon node computing / failing / delivering an answer, Reorg, Invalidate, Trim, Mutate; the cache's own steps are the
    implementation's business).  The executor runs these sequentially (each stimulus runs until the cache code blocks
    in the beacon call or returns), so here the cache's internal steps are urgent.  Run with -simulate. *)
 EXTENDS DutiesCache, Json, SequencesExt
-CONSTANTS GenLen, MaxVer
+CONSTANTS GenLen, MaxVer, MaxFail
 VARIABLE hist
 K3 == <<"prop", "att", "sync">>
 KIdx(k) == CHOOSE i \in DOMAIN Kinds : Kinds[i] = k
@@ -16,6 +16,7 @@ GenInit == InitCache /\ asg = GenAsg /\ hist = <<[ev |-> "Config", asg |-> SetTo
 Menu == {<<k, e, S>> : k \in KindSet, e \in {4, 5}, S \in {{1}, {2, 3}, {1, 2, 3}, {3}}}
 \* keep the mix useful: no two maintenance / mutation steps in a row
 Quiet == hist[Len(hist)].ev \in {"Invalidate", "Trim", "Mutate"}
+NFails == Cardinality({i \in DOMAIN hist : hist[i].ev = "Compute" /\ "fail" \in DOMAIN hist[i]})
 FirstIdle(r) == rq[r].st = "idle" /\ \A q \in Reqs : q < r => rq[q].st # "idle"
 GenNext ==
   IF ENABLED Internal THEN Internal /\ UNCHANGED hist
@@ -23,6 +24,7 @@ GenNext ==
   \/ \E r \in Reqs, m \in Menu : FirstIdle(r) /\ Call(r, m[1], m[2], m[3])
         /\ hist' = Append(hist, [ev |-> "Call", r |-> r, k |-> m[1], e |-> m[2], S |-> SetToSeq(m[3])])
   \/ \E r \in Reqs : Fetch(r) /\ hist' = Append(hist, [ev |-> "Compute", r |-> r])
+  \/ \E r \in Reqs : NFails < MaxFail /\ FetchFail(r) /\ hist' = Append(hist, [ev |-> "Compute", r |-> r, fail |-> TRUE])
   \/ \E r \in Reqs : Deliver(r) /\ hist' = Append(hist, [ev |-> "Deliver", r |-> r])
   \/ \E e0 \in {3, 4} : tv[6] < MaxVer /\ Reorg(e0) /\ hist' = Append(hist, [ev |-> "Reorg", e0 |-> e0])
   \/ \E e0 \in {3, 4} : ~Quiet /\ InvCall(e0) /\ hist' = Append(hist, [ev |-> "Invalidate", e0 |-> e0])
